@@ -43,39 +43,40 @@ func init() {
 // ---------------------------------------------------------------- jobs and results (parent <-> worker)
 
 type c09job struct {
-	ID    int    `json:"id"`
-	Kind  string `json:"kind"` // park | expired | revival | stale | hist
-	Src   string `json:"src"`
-	Pre   []string `json:"pre,omitempty"`  // earlier evaluations (EvalWithContext, background)
-	Post  string `json:"post,omitempty"`   // evaluated by the host between the cancel and the release
-	K     int    `json:"k"`                // park before operation k (0 = cancel when nothing moves any more)
-	Procs int    `json:"procs,omitempty"`  // GOMAXPROCS for this job (0 = leave)
-	Hist  []c10ev `json:"hist,omitempty"`
+	ID     int      `json:"id"`
+	Kind   string   `json:"kind"` // park | expired | revival | stale | hist
+	Src    string   `json:"src"`
+	Pre    []string `json:"pre,omitempty"`    // earlier evaluations (EvalWithContext, background)
+	Post   string   `json:"post,omitempty"`   // evaluated by the host between the cancel and the release
+	K      int      `json:"k"`                // park before operation k (0 = cancel when nothing moves any more)
+	Procs  int      `json:"procs,omitempty"`  // GOMAXPROCS for this job (0 = leave)
+	Single bool     `json:"single,omitempty"` // one interpreted goroutine: it cannot finish while it is parked
+	Hist   []c10ev  `json:"hist,omitempty"`
 }
 
 type c09res struct {
-	ID          int     `json:"id"`
-	Err         string  `json:"err,omitempty"` // harness-level failure (compile error of a template, ...)
-	Completed   bool    `json:"completed"`     // the program ended before operation k
-	Stalled     bool    `json:"stalled"`       // cancelled because nothing moved any more
-	Ret         bool    `json:"ret"`           // EvalWithContext returned the context's error
-	RetErr      string  `json:"ret_err,omitempty"`
-	LatencyMs   float64 `json:"latency_ms"`
-	ExitMs      float64 `json:"exit_ms"`
-	WallMs      float64 `json:"wall_ms"`
-	TotalOps    int     `json:"total_ops"`
-	TicksBefore []int   `json:"ticks_before"`
-	TicksAfter  []int   `json:"ticks_after"`
-	MaxOpsAfter int     `json:"max_ops_after"`
-	OpsAfter    int     `json:"ops_after"`
-	Parked      int     `json:"parked"`
-	Leftover    int     `json:"leftover"`
-	HostBlocked int     `json:"host_blocked"`
-	LeftStacks  string  `json:"left_stacks,omitempty"`
-	Runaway     bool    `json:"runaway,omitempty"` // interpreted goroutines kept running after the cancellation; the worker is replaced
-	Slow        string  `json:"slow,omitempty"` // latency-only remarks (never an alarm below the large bound)
+	ID          int      `json:"id"`
+	Err         string   `json:"err,omitempty"` // harness-level failure (compile error of a template, ...)
+	Completed   bool     `json:"completed"`     // the program ended before operation k
+	Stalled     bool     `json:"stalled"`       // cancelled because nothing moved any more
+	Ret         bool     `json:"ret"`           // EvalWithContext returned the context's error
+	RetErr      string   `json:"ret_err,omitempty"`
+	LatencyMs   float64  `json:"latency_ms"`
+	ExitMs      float64  `json:"exit_ms"`
+	WallMs      float64  `json:"wall_ms"`
+	TotalOps    int      `json:"total_ops"`
+	TicksBefore []int    `json:"ticks_before"`
+	TicksAfter  []int    `json:"ticks_after"`
+	MaxOpsAfter int      `json:"max_ops_after"`
+	OpsAfter    int      `json:"ops_after"`
+	Parked      int      `json:"parked"`
+	Leftover    int      `json:"leftover"`
+	HostBlocked int      `json:"host_blocked"`
+	LeftStacks  string   `json:"left_stacks,omitempty"`
+	Runaway     bool     `json:"runaway,omitempty"` // interpreted goroutines kept running after the cancellation; the worker is replaced
+	Slow        string   `json:"slow,omitempty"`    // latency-only remarks (never an alarm below the large bound)
 	Uses        []c10use `json:"uses,omitempty"`
-	HistEvents  []c10ev `json:"hist_events,omitempty"` // history as executed (expired contexts resolved)
+	HistEvents  []c10ev  `json:"hist_events,omitempty"` // history as executed (expired contexts resolved)
 }
 
 // ---------------------------------------------------------------- one run under the hook
@@ -414,7 +415,12 @@ func c09runJob(j c09job) (res c09res) {
 				n := r.n
 				r.mu.Unlock()
 				if n > 0 && time.Since(time.Unix(0, atomic.LoadInt64(&r.lastMove))) > c09StallQuiet {
-					res.Stalled = true
+					select {
+					case er = <-errc: // nothing moves because the program has ended
+						got = true
+					default:
+						res.Stalled = true
+					}
 					break wait
 				}
 			}
@@ -448,6 +454,18 @@ func c09runJob(j c09job) (res c09res) {
 			res.RetErr = er.err.Error()
 		}
 	} else if res.RetErr == "" {
+		if !j.Single || res.Stalled || j.Kind == "expired" {
+			// the evaluation ended by itself while the context was being cancelled (its main goroutine had
+			// nothing left to do): EvalWithContext may return either result; not a cancellation case
+			res.Completed = true
+			r.mu.Lock()
+			r.returned = true
+			res.TotalOps = r.n
+			r.mu.Unlock()
+			r.release()
+			c09settle(before, c09ExitBound, nil)
+			return
+		}
 		res.RetErr = "EvalWithContext returned nil error"
 	}
 	if res.LatencyMs > float64(c09SlowNote.Milliseconds()) {
@@ -728,7 +746,7 @@ func c09templates(r *rng, thorough bool) []c09tmpl {
 			fs = append(fs, fmt.Sprintf("[Nop; Tick %d; Nop; Call %d; Nop; Tick %d; Ret]", n, 2+n-1, 100+n))
 		}
 		ts = append(ts, c09tmpl{Name: "recursion", Class: "single", Kind: "park", KMax: kS + 40, Infinite: true,
-			Src: fmt.Sprintf("package main\n\nimport \"host\"\n\nfunc rec(n int) {\n\tif n == 0 {\n\t\treturn\n\t}\n\thost.Tick(n)\n\trec(n - 1)\n\thost.Tick(100 + n)\n}\n\nfunc main() {\n\tfor {\n\t\trec(%d)\n\t}\n}\n", depth),
+			Src:     fmt.Sprintf("package main\n\nimport \"host\"\n\nfunc rec(n int) {\n\tif n == 0 {\n\t\treturn\n\t}\n\thost.Tick(n)\n\trec(n - 1)\n\thost.Tick(100 + n)\n}\n\nfunc main() {\n\tfor {\n\t\trec(%d)\n\t}\n}\n", depth),
 			CoqF:    "[ " + strings.Join(fs, "; ") + " ]",
 			CoqScen: c09park("[]", 0, mainOnly, false, "[]", "[0]")})
 	}
@@ -1056,7 +1074,7 @@ func runC09(args []string) error {
 	id := 0
 	add := func(t *c09tmpl, k, procs int) {
 		id++
-		jobs = append(jobs, c09job{ID: id, Kind: t.Kind, Src: t.Src, Pre: t.Pre, Post: t.Post, K: k, Procs: procs})
+		jobs = append(jobs, c09job{ID: id, Kind: t.Kind, Src: t.Src, Pre: t.Pre, Post: t.Post, K: k, Procs: procs, Single: t.Class == "single"})
 		metas[id] = meta{t, k, procs}
 	}
 	procChoices := []int{0, 0, 1, 2, 4}
